@@ -98,6 +98,9 @@ func (w *world) serverSocket(r *rand.Rand) sio.ServerSocket {
 
 // do runs one operation under the watchdog.
 func (w *world) do(kind string, f func()) {
+	if w.hangs.Load() > 0 {
+		return // this program already hangs: the verdict is in, the remaining operations would only queue behind it
+	}
 	id := w.log.begin(kind)
 	done := make(chan struct{})
 	go func() {
@@ -371,7 +374,11 @@ func runProgram(run *vk.Run, log *opLog, program int, r *rand.Rand) {
 		w.do("manager.Close", func() { m.Close() })
 	}
 	w.do("server.Close", func() { srv.IO.Close() })
-	srv.Close()
+	if w.hangs.Load() > 0 {
+		go srv.Close() // may never return on a deadlocked tree
+	} else {
+		srv.Close()
+	}
 	run.Distinct(fmt.Sprintf("program/g=%d/%s/rec=%v", goroutines, strings.Join(transports, "+"), recovery))
 }
 
@@ -453,8 +460,8 @@ func childMain(run *vk.Run) {
 	base := run.Rand(fmt.Sprintf("c16/%s", os.Getenv("GOMAXPROCS")))
 	for p := 0; p < n; p++ {
 		runProgram(run, log, p, rand.New(rand.NewSource(base.Int63())))
-		if run.Violations() > 10 {
-			break
+		if run.Violations() > 1 {
+			break // a tree that hangs costs a minute per program: enough evidence
 		}
 	}
 	vk.WaitUntil(80*time.Second, func() bool { return pendingVerdicts.Load() == 0 })
